@@ -351,14 +351,21 @@ func funcsWithListSpineAccess(c *Ctx) []*ast.FuncDecl {
 	return out
 }
 
-// loopVarValues enumerates the values a counted loop's variables take for a given folding hook: simulates the header
-// (init terms, condition term, post statement) — integers only. Returns one assignment per iteration.
-func (c *Ctx) loopIterations(l *LoopRec, hook func(Term) (int64, bool), limit int) ([]map[types.Object]int64, string) {
+// loopSim simulates the header of a counted loop on integers: init terms, condition term, post statement.
+type loopSim struct {
+	c     *Ctx
+	l     *LoopRec
+	state map[types.Object]int64
+	why   string
+}
+
+func (c *Ctx) newLoopSim(l *LoopRec, hook func(Term) (int64, bool)) *loopSim {
+	s := &loopSim{c: c, l: l, state: map[types.Object]int64{}}
 	if l.For == nil {
-		return nil, "not a counted loop"
+		s.why = "not a counted loop"
+		return s
 	}
-	state := map[types.Object]int64{}
-	var vars []types.Object
+	n := 0
 	for o, t := range l.Init {
 		if !isIntType(o.Type()) {
 			continue
@@ -366,83 +373,116 @@ func (c *Ctx) loopIterations(l *LoopRec, hook func(Term) (int64, bool), limit in
 		e := &termEnv{hook: hook}
 		val, ok := e.int(t)
 		if !ok {
-			return nil, "loop initialiser outside the vocabulary: " + e.fail
+			s.why = "loop initialiser outside the vocabulary: " + e.fail
+			return s
 		}
-		state[o] = val
-		vars = append(vars, o)
+		s.state[o] = val
+		n++
 	}
-	if len(vars) == 0 || l.CondT == nil {
-		return nil, "loop has no integer loop variable / no condition"
+	if n == 0 || l.CondT == nil {
+		s.why = "loop has no integer loop variable / no condition"
+	}
+	return s
+}
+
+func (s *loopSim) hook(outer func(Term) (int64, bool)) func(Term) (int64, bool) {
+	return func(t Term) (int64, bool) {
+		if lv, ok := t.(TLoop); ok && lv.ID == s.l.ID {
+			if val, ok := s.state[lv.Obj]; ok {
+				return val, true
+			}
+		}
+		return outer(t)
+	}
+}
+
+// cond evaluates the loop condition in the current state.
+func (s *loopSim) cond(outer func(Term) (int64, bool)) (bool, bool) {
+	e := &termEnv{hook: s.hook(outer)}
+	v, ok := e.bool(s.l.CondT)
+	if !ok {
+		s.why = "loop condition outside the vocabulary: " + e.fail
+	}
+	return v, ok
+}
+
+// post applies the post statement (integers only).
+func (s *loopSim) post() bool {
+	c, l := s.c, s.l
+	if l.Post == nil {
+		s.why = "loop without post statement"
+		return false
+	}
+	ev := &evalEnv{c: c, vars: map[types.Object]int64{}}
+	for k, val := range s.state {
+		ev.vars[k] = val
+	}
+	next := map[types.Object]int64{}
+	switch p := l.Post.(type) {
+	case *ast.IncDecStmt:
+		o := c.obj(p.X)
+		d := int64(1)
+		if p.Tok == token.DEC {
+			d = -1
+		}
+		next[o] = s.state[o] + d
+	case *ast.AssignStmt:
+		if len(p.Lhs) != len(p.Rhs) {
+			s.why = "post statement outside the vocabulary"
+			return false
+		}
+		for i, lh := range p.Lhs {
+			o := c.obj(lh)
+			var val int64
+			var ok bool
+			switch p.Tok {
+			case token.ASSIGN:
+				val, ok = ev.int(p.Rhs[i])
+			case token.ADD_ASSIGN:
+				val, ok = ev.int(p.Rhs[i])
+				val = s.state[o] + val
+			case token.SUB_ASSIGN:
+				val, ok = ev.int(p.Rhs[i])
+				val = s.state[o] - val
+			}
+			if !ok {
+				s.why = "post statement outside the vocabulary"
+				return false
+			}
+			next[o] = val
+		}
+	default:
+		s.why = "post statement outside the vocabulary"
+		return false
+	}
+	for k, val := range next {
+		s.state[k] = val
+	}
+	return true
+}
+
+// loopIterations enumerates the states of all iterations (for loops whose condition does not depend on what the body does).
+func (c *Ctx) loopIterations(l *LoopRec, hook func(Term) (int64, bool), limit int) ([]map[types.Object]int64, string) {
+	sim := c.newLoopSim(l, hook)
+	if sim.why != "" {
+		return nil, sim.why
 	}
 	var out []map[types.Object]int64
 	for it := 0; it < limit; it++ {
-		h := func(t Term) (int64, bool) {
-			if lv, ok := t.(TLoop); ok && lv.ID == l.ID {
-				if val, ok := state[lv.Obj]; ok {
-					return val, true
-				}
-			}
-			return hook(t)
-		}
-		e := &termEnv{hook: h}
-		cond, ok := e.bool(l.CondT)
+		cond, ok := sim.cond(hook)
 		if !ok {
-			return nil, "loop condition outside the vocabulary: " + e.fail
+			return nil, sim.why
 		}
 		if !cond {
 			return out, ""
 		}
 		cp := map[types.Object]int64{}
-		for k, val := range state {
+		for k, val := range sim.state {
 			cp[k] = val
 		}
 		out = append(out, cp)
-		// post statement (AST, integers only)
-		if l.Post == nil {
-			return nil, "loop without post statement"
-		}
-		ev := &evalEnv{c: c, vars: map[types.Object]int64{}}
-		for k, val := range state {
-			ev.vars[k] = val
-		}
-		next := map[types.Object]int64{}
-		switch p := l.Post.(type) {
-		case *ast.IncDecStmt:
-			o := c.obj(p.X)
-			d := int64(1)
-			if p.Tok == token.DEC {
-				d = -1
-			}
-			next[o] = state[o] + d
-		case *ast.AssignStmt:
-			if len(p.Lhs) != len(p.Rhs) {
-				return nil, "post statement outside the vocabulary"
-			}
-			for i, lh := range p.Lhs {
-				o := c.obj(lh)
-				rhs := p.Rhs[i]
-				var val int64
-				var ok bool
-				switch p.Tok {
-				case token.ASSIGN:
-					val, ok = ev.int(rhs)
-				case token.ADD_ASSIGN:
-					val, ok = ev.int(rhs)
-					val = state[o] + val
-				case token.SUB_ASSIGN:
-					val, ok = ev.int(rhs)
-					val = state[o] - val
-				}
-				if !ok {
-					return nil, "post statement outside the vocabulary"
-				}
-				next[o] = val
-			}
-		default:
-			return nil, "post statement outside the vocabulary"
-		}
-		for k, val := range next {
-			state[k] = val
+		if !sim.post() {
+			return nil, sim.why
 		}
 	}
 	return nil, "loop does not terminate within the folding limit"
